@@ -14,10 +14,8 @@ B3 = f"bound_res(self.step, {SB2})"
 SB3 = f"bound_st(self.step, {SB2})"
 _ALLOK = f"{SL} is Ok && {B1} is Ok && {B2} is Ok && {B3} is Ok"
 _SEL = "slyce_select({seq}, " + f"{B1}->Ok_0, {B2}->Ok_0, {B3}->Ok_0)"
-unit(id="slicing.exec", src="src/instruction/slicing.rs", path=[("impl", "Exec for Slicing"), ("fn", "exec")], impl="SlicingK",
+unit(id="slicing.exec", src="src/instruction/slicing.rs", path=[("impl", "Exec for Slicing"), ("fn", "exec")], impl="Slicing",
      mod="slicing_exec", stubs=["iws.exec"], fragments=["slicing"],
-     unit_types=[dict(name="Slicing (fields)", src="src/instruction/slicing.rs", path=[("struct", "Slicing")],
-                      rewrites=[("pub struct Slicing", "pub struct SlicingK")])],
      requires=[f"{SL} is Ok ==> ({SL}->Ok_0 is String || {SL}->Ok_0 is Array)",
                f"{SL} is Ok ==> bound_is_int(self.start, {SL1})",
                f"{SL} is Ok && {B1} is Ok ==> bound_is_int(self.stop, {SB1})",
@@ -43,3 +41,74 @@ for _u in _v.UNITS:
     if _u["id"] == "slicing.to_bound":
         _u.setdefault("fragments", []).append("slicing")
         _u["ensures"].append(("slicing.to_bound.is_the_spec_function_used_by_slicing_exec", ["C09"], "r == to_bound_spec(index)"))
+
+# ---------------------------------------------------------------- t.N and s.f ---------------------
+RS0, RS9, OKI = _v.RS0, _v.RS9, _v.OKI
+TA = f"eval_res(self.tuple.instruction, {S0})"
+unit(id="tupleaccess.exec", src="src/instruction/tuple_access.rs", path=[("impl", "Exec for TupleAccess"), ("fn", "exec")],
+     impl="TupleAccess", stubs=["iws.exec"], fragments=["opspecs", "semantics"],
+     requires=[f"{TA} is Ok ==> {TA}->Ok_0 is Tuple && self.index < {TA}->Ok_0->Tuple_0.elems@.len()"],
+     ensures=[
+         ("tupleaccess.exec.is_the_semantic_function_tupleaccess_res", ["C07", "C04"],
+          f"r == tupleaccess_res(*self, {S0}) && {S9} == tupleaccess_st(*self, {S0})"),
+     ])
+RT = f"rec_res(self.tuple.instruction, {RS0})"
+unit(id="tupleaccess.recreate", src="src/instruction/tuple_access.rs", path=[("impl", "Recreate for TupleAccess"), ("fn", "recreate")],
+     impl="TupleAccess", stubs=["iws.recreate"], fragments=["opspecs", "semantics"], broadcast=["sem_axioms::sem", "sem_axioms2::sem2"],
+     ensures=[
+         ("tupleaccess.recreate.unobservable", ["C04", "C07"],
+          f"r is Ok ==> (forall|s: int| #[trigger] eval_res(r->Ok_0, s) == tupleaccess_res(*self, s)) "
+          f"&& (forall|s: int| #[trigger] eval_st(r->Ok_0, s) == tupleaccess_st(*self, s))"),
+         ("tupleaccess.recreate.operand_error_stops", ["C04"], f"{RT} is Err ==> r == Err::<Instruction, ExecError>({RT}->Err_0)"),
+         ("tupleaccess.recreate.rebuilt_in_place", ["C04"],
+          f"{RT} is Ok ==> r is Ok && r->Ok_0 is TupleAccess && r->Ok_0->TupleAccess_0.index == self.index "
+          f"&& r->Ok_0->TupleAccess_0.tuple.instruction == {RT}->Ok_0 && {RS9} == rec_st(self.tuple.instruction, {RS0})"),
+     ])
+FA = f"eval_res(self.var.instruction, {S0})"
+unit(id="fieldaccess.exec", src="src/instruction/field_access.rs", path=[("impl", "Exec for FieldAccess"), ("fn", "exec")],
+     impl="FieldAccess", stubs=["iws.exec"], fragments=["opspecs", "semantics"],
+     requires=[f"{FA} is Ok ==> {FA}->Ok_0 is Struct && {FA}->Ok_0->Struct_0.map.fields@.dom().contains(name_chars(self.ident))"],
+     ensures=[
+         ("fieldaccess.exec.is_the_semantic_function_fieldaccess_res", ["C07", "C04"],
+          f"r == fieldaccess_res(*self, {S0}) && {S9} == fieldaccess_st(*self, {S0})"),
+     ])
+RF = f"rec_res(self.var.instruction, {RS0})"
+unit(id="fieldaccess.recreate", src="src/instruction/field_access.rs", path=[("impl", "Recreate for FieldAccess"), ("fn", "recreate")],
+     impl="FieldAccess", stubs=["iws.recreate"], fragments=["opspecs", "semantics"], broadcast=["sem_axioms::sem", "sem_axioms2::sem2"],
+     ensures=[
+         ("fieldaccess.recreate.unobservable", ["C04", "C07"],
+          f"r is Ok ==> (forall|s: int| #[trigger] eval_res(r->Ok_0, s) == fieldaccess_res(*self, s)) "
+          f"&& (forall|s: int| #[trigger] eval_st(r->Ok_0, s) == fieldaccess_st(*self, s))"),
+         ("fieldaccess.recreate.rebuilt_in_place", ["C04"],
+          f"(match {RF} {{ Err(e) => r == Err::<Instruction, ExecError>(e), Ok(v) => r is Ok && r->Ok_0 is FieldAccess "
+          f"&& r->Ok_0->FieldAccess_0.ident == self.ident && r->Ok_0->FieldAccess_0.var.instruction == v }}) "
+          f"&& {RS9} == rec_st(self.var.instruction, {RS0})"),
+     ])
+# ---------------------------------------------------------------- mut e: recreate ----------------
+RM = f"rec_res(self.instruction.instruction, {RS0})"
+unit(id="mut.recreate", src="src/instruction/mut.rs", path=[("impl", "Recreate for Mut"), ("fn", "recreate")], impl="MutIns",
+     stubs=["iws.recreate"], rewrites=[("Ok(Mut {", "Ok(MutIns {")],   # instruction::Mut is named MutIns here (variable::Mut also exists)
+     ensures=[
+         ("mut.recreate.stays_a_mut_of_the_recreated_initialiser", ["C04", "C13"],
+          f"(match {RM} {{ Err(e) => r == Err::<Instruction, ExecError>(e), Ok(v) => r is Ok && r->Ok_0 is Mut "
+          f"&& r->Ok_0->Mut_0.var_type == self.var_type && r->Ok_0->Mut_0.instruction.instruction == v }}) "
+          f"&& {RS9} == rec_st(self.instruction.instruction, {RS0})"),
+     ])
+# ---------------------------------------------------------------- match arm: recreate ------------
+_TY_ST = f"lv_insert(lv_layer({RS0}), self->Type_ident, LocalVariable::Other(self->Type_var_type))"
+unit(id="matcharm.recreate", src=_v.MARM, path=[("impl", "MatchArm"), ("fn", "recreate")], impl="MatchArm",
+     stubs=["iws.recreate"],
+     ensures=[
+         ("matcharm.recreate.catch_all_arm_keeps_its_kind", ["C04", "C12"],
+          f"self is Other ==> (match rec_res(self->Other_0.instruction, {RS0}) {{ Err(e) => r == Err::<MatchArm, ExecError>(e), "
+          f"Ok(b) => r is Ok && r->Ok_0 is Other && r->Ok_0->Other_0.instruction == b }}) && {RS9} == rec_st(self->Other_0.instruction, {RS0})"),
+         ("matcharm.recreate.type_arm_keeps_type_and_scopes_the_binding", ["C04", "C12"],
+          f"self is Type ==> (match rec_res(self->Type_instruction.instruction, {_TY_ST}) {{ Err(e) => r == Err::<MatchArm, ExecError>(e), "
+          f"Ok(b) => r is Ok && r->Ok_0 is Type && r->Ok_0->Type_ident == self->Type_ident && r->Ok_0->Type_var_type == self->Type_var_type "
+          f"&& r->Ok_0->Type_instruction.instruction == b }}) && {RS9} == {RS0}"),
+         ("matcharm.recreate.value_arm_keeps_every_candidate_in_order", ["C04", "C12", "C19"],
+          f"self is Value ==> (match rseq_res(self->Value_0@, {RS0}, 0, Seq::empty()) {{ Err(e) => r == Err::<MatchArm, ExecError>(e), "
+          f"Ok(cs) => (match rec_res(self->Value_1.instruction, rseq_st(self->Value_0@, {RS0}, 0)) {{ Err(e) => r == Err::<MatchArm, ExecError>(e), "
+          f"Ok(b) => r is Ok && r->Ok_0 is Value && r->Ok_0->Value_0@.len() == cs.len() "
+          f"&& (forall|i: int| 0 <= i < cs.len() ==> r->Ok_0->Value_0@[i].instruction == cs[i]) && r->Ok_0->Value_1.instruction == b }}) }})"),
+     ])
